@@ -797,3 +797,82 @@ pub fn fibonacci_gcd() -> Vec<String> {
     }
     fl
 }
+
+/// Multi-node idioms that a "fusing" evaluator could compute through one library call (hypot, fma, expm1, ln_1p,
+/// atan2, cbrt, ...) or simplify algebraically ((a/b)*b, sqrt(x)^2, x-x): every operation must still be applied node
+/// by node. Operands are awkward doubles (inexact decimals, huge and tiny magnitudes, zeros, non-finite values written
+/// as quotients), all ordered pairs; triples over a smaller pool.
+pub fn idioms(ev: Ev) -> Vec<String> {
+    let int_only = ev == Ev::I64;
+    let mut ops: Vec<String> = if int_only {
+        ["0", "1", "2", "3", "7", "10", "(-1)", "(-3)", "3037000500", "4611686018427387904", "9223372036854775807", "(-9223372036854775807-1)", "9007199254740993", "63", "64"]
+            .iter()
+            .map(|s| s.to_string())
+            .collect()
+    } else {
+        ["0", "1", "2", "3", "0.1", "0.4", "0.7", "0.3", "1.5", "(1/3)", "(-0.1)", "(-2)", "(-0.0)", "10", "100", "0.001", "1000000", "0.000001", "9007199254740993", "123456.789"]
+            .iter()
+            .map(|s| s.to_string())
+            .collect()
+    };
+    match ev {
+        Ev::F64 | Ev::Num | Ev::Cpx => {
+            for s in ["(10^200)", "(10^-200)", "(10^154)", "(10^-162)", "(1/0)", "(-1/0)", "(0/0)", "(10^308)", "(2^-1074)", "pi", "e"] {
+                ops.push(s.to_string());
+            }
+        }
+        Ev::Dec => {
+            for s in ["79228162514264337593543950335", "0.0000000000000000000000000001", "(10^14)", "(10^-14)", "1.10", "2.50"] {
+                ops.push(s.to_string());
+            }
+        }
+        _ => {}
+    }
+    if ev == Ev::Cpx {
+        for s in ["i", "(1+i)", "(0.1-0.4i)", "(-i)"] {
+            ops.push(s.to_string());
+        }
+    }
+    let two: Vec<&str> = if int_only {
+        vec![
+            "{a}*{b}/{b}", "{a}/{b}*{b}", "{a}^2-{b}^2", "({a}+{b})*({a}-{b})", "{a}*{a}+{b}*{b}", "{a}+{b}-{b}", "{a}-{b}+{b}", "{a}<<{b}>>{b}", "{a}>>{b}<<{b}", "{a}%{b}+{a}/{b}*{b}",
+            "{a}*{b}%{b}", "({a}&{b})|({a}&{b})", "{a}-{a}+{b}", "abs({a})*sgn({a})+{b}", "{a}^2/{a}+{b}", "-{a}+{b}", "{b}-{a}", "{a}*{b}-{b}*{a}", "{a}²+{b}²", "sqrt({a}^2+{b}^2)", "sqrt({a}*{a})+{b}",
+        ]
+    } else {
+        vec![
+            "sqrt({a}^2+{b}^2)", "sqrt({a}²+{b}²)", "sqrt({a}*{a}+{b}*{b})", "sqrt(pow({a},2)+pow({b},2))", "{a}*{b}/{b}", "{a}/{b}*{b}", "{a}^2-{b}^2", "({a}+{b})*({a}-{b})", "{a}+{b}-{b}", "{a}-{b}+{b}",
+            "atan({a}/{b})", "exp({a})*exp({b})", "exp({a}+{b})", "ln({a})+ln({b})", "ln({a}*{b})", "ln({a})/ln({b})", "{a}^{b}*{a}", "sqrt({a})*sqrt({b})", "sqrt({a}*{b})", "{a}*{b}-{b}*{a}", "{a}/{b}-{a}/{b}",
+            "sin({a})/cos({a})+{b}", "{a}^0.5*{b}", "{a}^(1/3)+{b}", "1/sqrt({a})+{b}", "exp({a})-1+{b}", "ln(1+{a})+{b}", "ln({a}+1)-{b}", "1-cos({a})+{b}", "sqrt({a})^2+{b}", "sqrt({a}^2)+{b}", "exp(ln({a}))+{b}",
+            "ln(exp({a}))+{b}", "abs({a})^2-{b}", "{a}*{a}*{a}+{b}", "{a}^3+{b}", "10^{a}+{b}", "2^{a}*{b}", "e^{a}-{b}", "{a}-{a}+{b}", "{a}/{a}*{b}", "({a}+{b})/2", "{a}/2+{b}/2", "{a}%{b}+{b}", "mod({a},{b})-{a}",
+            "sinh({a})+cosh({a})-{b}", "{a}*(1/{b})", "1/(1/{a})+{b}",
+        ]
+    };
+    let three: Vec<&str> = if int_only {
+        vec!["{a}*{b}+{c}", "{a}+{b}*{c}", "{a}*{b}-{c}", "{a}*{b}/{c}", "{a}/{c}*{b}", "({a}+{b})%{c}", "{a}*{b}%{c}", "{a}-{b}-{c}", "{a}-({b}+{c})"]
+    } else {
+        vec!["{a}*{b}+{c}", "{a}+{b}*{c}", "{a}*{b}-{c}", "{c}-{a}*{b}", "{a}*{b}/{c}", "{a}/{c}*{b}", "{a}+{b}+{c}", "{a}+({b}+{c})", "{a}*{b}*{c}", "{a}*({b}*{c})", "sqrt({a}^2+{b}^2+{c}^2)", "({a}+{b})*{c}", "{a}*{c}+{b}*{c}"]
+    };
+    let mut out = Vec::new();
+    for a in &ops {
+        for b in &ops {
+            for t in &two {
+                out.push(t.replace("{a}", a).replace("{b}", b));
+            }
+        }
+    }
+    let small: Vec<&String> = ops.iter().filter(|s| !s.contains("^-") || s.len() < 9).take(if int_only { 12 } else { 14 }).collect();
+    let extra: Vec<String> = if int_only { vec!["9223372036854775807".into(), "4611686018427387904".into()] } else if ev == Ev::Dec { vec!["79228162514264337593543950335".into(), "0.0000000000000000000000000001".into()] } else { vec!["(10^200)".into(), "(10^-200)".into(), "(10^308)".into()] };
+    let pool3: Vec<&String> = small.into_iter().chain(extra.iter()).collect();
+    for a in &pool3 {
+        for b in &pool3 {
+            for c in &pool3 {
+                for t in &three {
+                    out.push(t.replace("{a}", a).replace("{b}", b).replace("{c}", c));
+                }
+            }
+        }
+    }
+    out.sort();
+    out.dedup();
+    out
+}
